@@ -179,6 +179,14 @@ var c14Spellings = func() []string {
 			}
 		}
 	}
+	// exponents at and beyond the int32 range, without and with fraction digits (which lower the exponent further)
+	for _, sign := range []string{"", "-"} {
+		for _, fp := range []string{"", ".", ".5", ".05", ".125"} {
+			for _, ex := range []string{"d2147483647", "d2147483648", "d2147483650", "d-2147483645", "d-2147483646", "d-2147483647", "d-2147483648", "d-2147483649", "d99999999999", "d-99999999999"} {
+				out = append(out, sign+"1"+fp+ex)
+			}
+		}
+	}
 	return out
 }()
 
@@ -407,6 +415,16 @@ func c14Body(c *mc.Ctx) {
 			return
 		}
 		c.Step(1)
+		if !fitsInt32(ref.e) {
+			// the value cannot be held (int32 exponent): an error, never some other value
+			if err == nil {
+				c.Fail("missing-error", "ParseDecimal-exponent", "ParseDecimal(%q) = %v although the exponent %d is outside int32", s, fromIon(d), ref.e)
+				return
+			}
+			c.Observe("rejected")
+			c.Nontrivial()
+			return
+		}
 		if err != nil {
 			c.Fail("unexpected-error", "ParseDecimal", "ParseDecimal(%q): %v", s, err)
 			return
